@@ -135,6 +135,16 @@ func vTimeStr(name string) string {
 	ns := vxI64(n + ".ns")
 	// the same instant in different RFC 3339 spellings (zone offsets, fractional seconds)
 	t := time.Unix(0, ns)
+	if z, known := vx.inputs[n+".z"].(bool); known {
+		// the model decided whether the string spells its zone as Z (value held in UTC) or with an offset
+		if z {
+			return t.UTC().Format(time.RFC3339Nano)
+		}
+		if len(n)%2 == 1 {
+			return t.In(time.FixedZone("", 2*3600)).Format(time.RFC3339Nano)
+		}
+		return t.In(time.FixedZone("", -5*3600-1800)).Format("2006-01-02T15:04:05.000000000Z07:00")
+	}
 	switch len(n) % 3 {
 	case 1:
 		return t.In(time.FixedZone("", 2*3600)).Format(time.RFC3339Nano)
@@ -622,6 +632,39 @@ func vIDPStore() dsig.X509CertificateStore {
 	return &dsig.MemoryX509CertificateStore{Roots: []*x509.Certificate{c}}
 }
 
+// vxIdPKey(i): IdP signing key number i with a certificate whose validity comes from the solver (idpcert.<i>.nb_sec /
+// .na_sec); indices no store certificate was made for get the default window 2000..2100.
+func vxIdPKey(i int) *vxKS {
+	name := fmt.Sprintf("idp#%d", i)
+	if ks, ok := vxKeyStores[name]; ok {
+		return ks
+	}
+	k := vRSAKey(name)
+	nb, na := time.Date(2000, 1, 1, 0, 0, 0, 0, time.UTC), time.Date(2100, 1, 1, 0, 0, 0, 0, time.UTC)
+	if _, ok := vx.inputs[fmt.Sprintf("idpcert.%d.nb_sec", i)]; ok {
+		nb = time.Unix(vxI64(fmt.Sprintf("idpcert.%d.nb_sec", i)), 0).UTC()
+		na = time.Unix(vxI64(fmt.Sprintf("idpcert.%d.na_sec", i)), 0).UTC()
+	}
+	tpl := &x509.Certificate{SerialNumber: big.NewInt(int64(1000 + i)), NotBefore: nb, NotAfter: na}
+	der, err := x509.CreateCertificate(vxOrigRandReader, tpl, tpl, &k.PublicKey, k)
+	if err != nil {
+		panic(err)
+	}
+	ks := &vxKS{k: k, c: der}
+	vxKeyStores[name] = ks
+	return ks
+}
+
+func vStoreCert(i int) *x509.Certificate {
+	c, err := x509.ParseCertificate(vxIdPKey(i).c)
+	if err != nil {
+		panic(err)
+	}
+	return c
+}
+func vStoreCertNotBefore(i int) int64 { return vStoreCert(i).NotBefore.UnixNano() }
+func vStoreCertNotAfter(i int) int64  { return vStoreCert(i).NotAfter.UnixNano() }
+
 func vhTLSCert() tls.Certificate {
 	ks := vxKeyStore("sp")
 	return tls.Certificate{Certificate: [][]byte{ks.c}, PrivateKey: ks.k}
@@ -653,6 +696,7 @@ func vxProcess(e *etree.Element) *etree.Element {
 		}
 	}
 	sig, name := "", ""
+	signer, keyinfo := -1, true
 	var keep []etree.Attr
 	for _, a := range e.Attr {
 		if a.Space == "" && a.Key == "vx-sigholder" {
@@ -664,6 +708,10 @@ func vxProcess(e *etree.Element) *etree.Element {
 				sig = a.Value
 			case "vx-name":
 				name = a.Value
+			case "vx-signer":
+				signer = int(a.Value[0] - '0')
+			case "vx-keyinfo":
+				keyinfo = a.Value != "0"
 			}
 			continue
 		}
@@ -709,7 +757,21 @@ func vxProcess(e *etree.Element) *etree.Element {
 		if vxI64("dsig.cert-rejected."+name) == 1 {
 			ks = vxKeyStore("untrusted")
 		}
+		if signer >= 0 {
+			ks = vxIdPKey(signer)
+		}
 		out = vxSign(e, ks)
+		if !keyinfo {
+			// a signature that carries no certificate: KeyInfo is not part of SignedInfo, so it can simply be dropped
+			if sg, ok := out.Child[len(out.Child)-1].(*etree.Element); ok && sg.Tag == "Signature" {
+				for i, c := range sg.Child {
+					if ki, ok := c.(*etree.Element); ok && ki.Tag == "KeyInfo" {
+						sg.RemoveChildAt(i)
+						break
+					}
+				}
+			}
+		}
 	case "invalid":
 		out = vxSign(e, vxKeyStore("untrusted"))
 	default:
@@ -746,6 +808,11 @@ func vEncodeDoc(name string, root *etree.Element, mode int) string {
 	raw := vxRenderBytes(root)
 	switch mode {
 	case 1:
+		if vxI64("xmlpartial.leak") == 1 {
+			if pg := vxPolyglot(raw, vxI64(n+".inflated_len")); pg != nil {
+				return base64.StdEncoding.EncodeToString(pg)
+			}
+		}
 		raw = vxDeflate(vxPadTo(raw, vxI64(n+".inflated_len")))
 	case 2:
 		raw = append([]byte(`<?xml version="1.0" encoding="ISO-8859-1"?>`), raw...)
@@ -757,6 +824,39 @@ func vEncodeDoc(name string, root *etree.Element, mode int) string {
 		return strings.TrimRight(base64.StdEncoding.EncodeToString(raw), "=")
 	}
 	return base64.StdEncoding.EncodeToString(raw)
+}
+
+// vxPolyglot: a DEFLATE stream of stored blocks that inflates to a document containing doc (plus ignorable text and
+// white space, inflatedLen bytes in all) while the stream's own bytes read as the beginning of an unterminated
+// XML document: block header 0x20 (non-final, stored) + LEN 0xADC3 + NLEN 0x523C spell " \u00ed<R", and the block
+// data continues "esponse ...>". A decoder that tries the raw bytes as XML first therefore decodes the outer
+// Response's Destination and Issuer before it fails on the next block header.
+func vxPolyglot(doc []byte, inflatedLen int64) []byte {
+	const blockLen = 0xADC3
+	head := `esponse xmlns="urn:oasis:names:tc:SAML:2.0:protocol" Destination="https://leaked.example/acs">`
+	tail := `<Issuer xmlns="urn:oasis:names:tc:SAML:2.0:assertion">leaked-by-the-failed-first-decode</Issuer>`
+	if len(head)+len(doc)+len(tail) > blockLen || inflatedLen <= blockLen {
+		return nil
+	}
+	first := append([]byte(head), doc...)
+	first = append(first, tail...)
+	first = append(first, bytes.Repeat([]byte{' '}, blockLen-len(first))...)
+	out := append([]byte{0x20, 0xC3, 0xAD, 0x3C, 0x52}, first...)
+	rest := inflatedLen - blockLen
+	for rest > 0 {
+		n := rest
+		if n > 65535 {
+			n = 65535
+		}
+		rest -= n
+		h := byte(0)
+		if rest == 0 {
+			h = 1
+		}
+		out = append(out, h, byte(n), byte(n>>8), ^byte(n), ^byte(n>>8))
+		out = append(out, bytes.Repeat([]byte{' '}, int(n))...)
+	}
+	return out
 }
 
 // vxPadTo appends trailing white space (legal after the root element, outside every signature) up to n bytes.
